@@ -174,6 +174,16 @@ class _NotImpl:
 NOTIMPL = _NotImpl()
 
 
+class Cx:
+    """A complex number re + i*im with polynomial parts."""
+
+    def __init__(self, re, im):
+        self.re, self.im = re, im
+
+    def __repr__(self):
+        return "(%s + %s j)" % (self.re.short(30), self.im.short(30))
+
+
 class HashVal:
     """The result of hash(x): equal for equal keys, distinct for structurally different keys."""
 
@@ -500,6 +510,22 @@ class BoolArr:
         self.flat, self.shape = flat, shape
 
 
+class NonZeroMask(BoolArr):
+    """`arr != 0` for an array with symbolic entries, *not decided*: entry k is True / False where that is known and None where it
+    depends on the values.  It can only be used to drop the (exact) zeros of that same array, which changes no sum."""
+
+    def __init__(self, flat, shape, source):
+        super().__init__(flat, shape)
+        self.source = source
+
+
+class MaskedArr:
+    """arr[mask] for a NonZeroMask: a selection whose length depends on the values."""
+
+    def __init__(self, base, mask):
+        self.base, self.mask = base, mask
+
+
 class DDict(dict):
     """collections.defaultdict"""
     default_factory = None
@@ -599,6 +625,9 @@ class Interp:
         self.gen_stack = []          # generator objects whose body is currently executing (innermost last)
         self.nonneg_keys = set()     # keys of polynomials known to be sums of squares by construction (x . x)
         self.len_objs = []           # the objects returned by len(<collection>) (identity matters: `n = len(xs); if n > 100`)
+        self.maybe_nonfinite = set()  # prefixes of symbols that stand for possibly non-finite numbers (results of an uninterpreted solve)
+        self.while_depth_at = {}
+        self.for_depth_at = {}       # call depth -> number of enclosing `for` statements being executed in that frame
         self.taint = {}              # id(Poly) -> (kind, object): "len" = a collection size, "counter" = a range() loop counter
         self.live_generators = []
         self.ph_of = {}          # poly key -> placeholder token
@@ -976,15 +1005,20 @@ class Interp:
             else:
                 seq = self.iterate(src, st)
             broke = False
-            for el in seq:
-                self.assign(st.target, el, env)
-                try:
-                    self.block(st.body, env)
-                except _Break:
-                    broke = True
-                    break
-                except _Continue:
-                    continue
+            lvl = len(self.fn_stack)
+            self.for_depth_at[lvl] = self.for_depth_at.get(lvl, 0) + 1
+            try:
+                for el in seq:
+                    self.assign(st.target, el, env)
+                    try:
+                        self.block(st.body, env)
+                    except _Break:
+                        broke = True
+                        break
+                    except _Continue:
+                        continue
+            finally:
+                self.for_depth_at[lvl] -= 1
             if not broke:
                 self.block(st.orelse, env)
         elif isinstance(st, ast.Break):
@@ -1006,17 +1040,22 @@ class Interp:
         elif isinstance(st, ast.While):
             n_iter = 0
             broke = False
-            while self.truth(self.ev(st.test, env), st.test):
-                n_iter += 1
-                if n_iter > 64:
-                    raise self.unsupported("while loop with more than 64 iterations", st)
-                try:
-                    self.block(st.body, env)
-                except _Break:
-                    broke = True
-                    break
-                except _Continue:
-                    continue
+            lvl = len(self.fn_stack)
+            self.while_depth_at[lvl] = self.while_depth_at.get(lvl, 0) + 1
+            try:
+                while self.truth(self.ev(st.test, env), st.test):
+                    n_iter += 1
+                    if n_iter > 64:
+                        raise self.unsupported("while loop with more than 64 iterations", st)
+                    try:
+                        self.block(st.body, env)
+                    except _Break:
+                        broke = True
+                        break
+                    except _Continue:
+                        continue
+            finally:
+                self.while_depth_at[lvl] -= 1
             if not broke:
                 self.block(st.orelse, env)
         elif isinstance(st, ast.Try):
@@ -1401,6 +1440,16 @@ class Interp:
             self.after_write(cur)
             return
         new = self.arith(op, cur, val, st)
+        in_for = self.for_depth_at.get(len(self.fn_stack), 0) > 0
+        in_while = self.while_depth_at.get(len(self.fn_stack), 0) > 0
+        if op in (ast.Add, ast.Sub) and isinstance(cur, Poly) and isinstance(new, Poly) and (in_for or in_while) and id(new) not in self.taint:
+            c0, c1 = cur.const_value(), new.const_value()
+            if c0 is not None and c1 is not None and int(c0) == c0 and int(c1) == c1:
+                # an integer accumulated over the elements of a collection (a running index, a count) or over the passes of a while
+                # loop (an iteration counter): its value grows with the size of the input / the number of iterations, so a test of
+                # it against a constant is a threshold
+                new = Poly(dict(new.t))
+                self.taint[id(new)] = ("len" if in_for else "counter", new)
         self.assign(t, new, env)
 
     def make_view(self, view, owner, cells):
@@ -1452,6 +1501,9 @@ class Interp:
             return
         if not isinstance(base, Arr):
             raise self.unsupported("subscript store on %r" % (base,), node)
+        if getattr(base, "foreign_dtype", False):
+            raise LossyOperation("element store into an array whose dtype is the caller's (an integer or float32 array truncates / rounds "
+                                 "what is stored into it)", self.where(node))
         if isinstance(v, Obj) and getattr(v, "tuple_fields", None):
             v = [v.fields[k] for k in v.tuple_fields]
         if isinstance(v, (list, tuple)) and v and all(isinstance(r, (list, tuple, Arr)) for r in v):
@@ -1638,6 +1690,8 @@ class Interp:
             return v
         if isinstance(v, (int, float)):
             return Poly.const(v)
+        if isinstance(v, complex):
+            return Cx(Poly.const(v.real), Poly.const(v.imag))
         raise self.unsupported("constant %r" % (v,), n)
 
     def module_of_current(self):
@@ -1665,6 +1719,10 @@ class Interp:
                     leaf = origin.rsplit(".", 1)[-1]
                     if leaf in self.pkg.classes:
                         return ClassRef(leaf)
+                    src_mod = origin.rsplit(".", 1)[0].rsplit(".", 1)[-1]
+                    for rel_, fm_ in sorted(self.pkg.module_funcs.items()):
+                        if leaf in fm_ and os.path.splitext(os.path.basename(rel_))[0] == src_mod:
+                            return Opaque("pkgfunc", fm_[leaf])
                     if leaf in self.pkg.funcs:
                         return Opaque("pkgfunc", leaf)
                     for rel, cs in sorted(self.pkg.module_consts.items()):
@@ -1673,8 +1731,9 @@ class Interp:
                 return Opaque("import", origin)
         if nm in self.pkg.classes:
             return ClassRef(nm)
-        if nm in self.pkg.funcs:
-            return Opaque("pkgfunc", nm)
+        fk_ = self.pkg.func_key(nm, mod)
+        if fk_ is not None:
+            return Opaque("pkgfunc", fk_)
         if nm in BUILTIN_NAMES:
             return Opaque("builtin", nm)
         if nm == "__name__":
@@ -1906,6 +1965,8 @@ class Interp:
             return v.map(lambda x: self.neg(x, node))
         if isinstance(v, Poly):
             return -v
+        if isinstance(v, Cx):
+            return Cx(-v.re, -v.im)
         if isinstance(v, Quot):
             return Quot(self.neg(v.num, node), v.den)
         if isinstance(v, Wrapped):
@@ -1970,7 +2031,7 @@ class Interp:
                     continue
                 # a collection size / an iteration counter tested against a constant: what the code does may differ for larger
                 # inputs / later iterations than any finite scenario contains
-                if ta[0] == "len" and isinstance(op, (ast.Lt, ast.LtE, ast.Gt, ast.GtE)) and c_ >= 3:
+                if ta[0] in ("len", "param") and isinstance(op, (ast.Lt, ast.LtE, ast.Gt, ast.GtE)) and c_ >= 3:
                     self.events.append(("size-threshold", "%s compared with %s at %s" % ("len(...)", c_, self.where(node))))
                 elif ta[0] in ("counter", "counter-derived") and (c_ >= 2 or ta[0] == "counter-derived") and not (ta[0] == "counter" and c_ <= 1):
                     self.events.append(("size-threshold", "an iteration counter compared with %s at %s" % (c_, self.where(node))))
@@ -2000,6 +2061,10 @@ class Interp:
             lf = la.flat() if la is not None else [self.scalar(l, node)] * len(ra.flat())
             rf = ra.flat() if ra is not None else [self.scalar(r, node)] * len(la.flat())
             out = []
+            if isinstance(op, ast.NotEq) and la is not None and ra is None and isinstance(r, Poly) and r.is_zero() and la.ndim == 1 and \
+                    sum(1 for x in lf if isinstance(x, Poly) and x.const_value() is None) > 2:
+                # `values != 0` over many symbolic entries: kept undecided (deciding every entry would fork 2^n ways)
+                return NonZeroMask([None if x.const_value() is None else (x.const_value() != 0) for x in lf], shape, la)
             for x, y in zip(lf, rf):
                 if not isinstance(x, Poly) or not isinstance(y, Poly):
                     raise self.unsupported("comparison of array elements %r, %r" % (x, y), node)
@@ -2043,6 +2108,13 @@ class Interp:
             return all(self.equal(a, b, node) for a, b in zip(l, r))
         if isinstance(l, ClassRef) and isinstance(r, ClassRef):
             return l.name == r.name
+        if isinstance(l, Opaque) and isinstance(r, Opaque) and l.kind == r.kind == "dtype":
+            f64 = ("float64", "float", "double", "float_")
+            return (l.payload[0] in f64 and r.payload[0] in f64) or l.payload == r.payload
+        if isinstance(l, Opaque) and l.kind == "dtype" and (r is FLOAT or (isinstance(r, ClassRef) and r.name == "float")):
+            return l.payload[0] in ("float64", "float", "double", "float_")
+        if isinstance(r, Opaque) and r.kind == "dtype" and (l is FLOAT or (isinstance(l, ClassRef) and l.name == "float")):
+            return r.payload[0] in ("float64", "float", "double", "float_")
         if isinstance(l, BytesVal) and isinstance(r, BytesVal):
             return l.key() == r.key()       # bit patterns: different symbols are treated as different (a miss recomputes, which is always right)
         if isinstance(l, (set, frozenset)) and isinstance(r, (set, frozenset)):
@@ -2168,6 +2240,8 @@ class Interp:
             a = self.to_arr(a, node)
         if isinstance(b, (list, tuple)) and isinstance(a, Arr):
             b = self.to_arr(b, node)
+        if isinstance(a, Cx) or isinstance(b, Cx):
+            return self.cx_arith(op, a, b, node)
         if isinstance(a, Pose) or isinstance(b, Pose):
             # numpy keeps the ndarray subclass for element-wise arithmetic
             cls = a.cls if isinstance(a, Pose) else b.cls
@@ -2265,6 +2339,38 @@ class Interp:
             raise LossyOperation("floor division", self.where(node))
         raise self.unsupported("operator %s" % op.__name__, node)
 
+    def cx_arith(self, op, a, b, node):
+        def cx(x):
+            if isinstance(x, Cx):
+                return x
+            if isinstance(x, Wrapped):
+                x = self.unwrap(x, node)
+            if isinstance(x, Poly):
+                return Cx(x, Poly())
+            raise self.unsupported("complex arithmetic with %r" % (x,), node)
+        a, b = cx(a), cx(b)
+        if op is ast.Add:
+            return Cx(a.re + b.re, a.im + b.im)
+        if op is ast.Sub:
+            return Cx(a.re - b.re, a.im - b.im)
+        if op is ast.Mult:
+            return Cx(a.re * b.re - a.im * b.im, a.re * b.im + a.im * b.re)
+        if op is ast.Div:
+            den = b.re * b.re + b.im * b.im
+            c = den.const_value()
+            if c is None or c == 0:
+                raise self.unsupported("division by a symbolic complex number", node)
+            k = Fraction(1) / Fraction(c)
+            return Cx((a.re * b.re + a.im * b.im).scale(k), (a.im * b.re - a.re * b.im).scale(k))
+        if op is ast.Pow:
+            e = b.re.const_value() if b.im.is_zero() else None
+            if e is not None and int(e) == e and 0 <= e <= 8:
+                r = Cx(Poly.const(1), Poly())
+                for _ in range(int(e)):
+                    r = self.cx_arith(ast.Mult, r, a, node)
+                return r
+        raise self.unsupported("operator on complex numbers", node)
+
     def quot_arith(self, op, a, b, node):
         def parts(x):
             return (x.num, x.den) if isinstance(x, Quot) else (x, Poly.const(1))
@@ -2305,7 +2411,7 @@ class Interp:
             st = self.intval(self.ev(sl.step, env), sl) if sl.step is not None else None
             return slice(lo, hi, st)
         v = self.ev(sl, env)
-        if isinstance(v, (IndexSet, slice)):
+        if isinstance(v, (IndexSet, slice, BoolArr)):
             return v
         if isinstance(v, tuple) and any(isinstance(x, slice) for x in v):
             return tuple(x if isinstance(x, slice) else self.intval(x, sl) for x in v)
@@ -2363,6 +2469,14 @@ class Interp:
         return self.index(v, idx, n)
 
     def index(self, v, idx, node):
+        if isinstance(idx, NonZeroMask):
+            if not isinstance(v, Arr) or v.ndim != 1 or len(v.data) != len(idx.flat):
+                raise self.unsupported("value-dependent mask applied to %r" % (v,), node)
+            return MaskedArr(v, idx)
+        if isinstance(idx, BoolArr):
+            if not isinstance(v, Arr) or v.ndim != 1 or len(v.data) != len(idx.flat):
+                raise self.unsupported("boolean mask applied to %r" % (v,), node)
+            return Arr([x for x, f_ in zip(v.data, idx.flat) if f_], 1)
         if isinstance(v, BoolArr) and isinstance(idx, int) and len(v.shape) == 1:
             if not -len(v.flat) <= idx < len(v.flat):
                 raise PathRaise("IndexError", self.where(node))
@@ -2541,6 +2655,8 @@ class Interp:
                         if a in cs and os.path.splitext(os.path.basename(rel))[0] == leafmod:
                             return self.module_global(rel, a, cs[a])
                 return Opaque("import", v.payload[0] + "." + a)
+            if v.kind == "lu" and a == "solve" and "spsolve" in self.overrides:
+                return Opaque("callable", lambda rhs, H_=v.payload[0]: self.overrides["spsolve"](H_, rhs))
             if v.kind == "logger":
                 return Opaque("logmeth", a)
             raise self.unsupported("attribute %s of %r" % (a, v), n)
@@ -2573,6 +2689,16 @@ class Interp:
                 if k[0] == "const":
                     return self.class_const(k[2], a, k[1])
                 return Opaque("bound", v, a)
+        if isinstance(v, Cx):
+            if a == "real":
+                return v.re
+            if a == "imag":
+                return v.im
+            if a == "conjugate":
+                return Opaque("callable", lambda v=v: Cx(v.re, -v.im))
+            raise self.unsupported("attribute %s of a complex number" % a, n)
+        if isinstance(v, Poly) and a in ("real", "imag", "conjugate"):
+            return v if a == "real" else (Poly() if a == "imag" else Opaque("callable", lambda v=v: v))
         if isinstance(v, slice) and a in ("start", "stop", "step"):
             x = getattr(v, a)
             return None if x is None else Poly.const(x)
@@ -2599,6 +2725,15 @@ class Interp:
                 return fl_
             if a == "dtype":
                 return Opaque("dtype", "float64")
+            if isinstance(v, Pose) and v.cls in self.pkg.classes and not v.__dict__.get("_finalized"):
+                # numpy calls __array_finalize__(self, obj) whenever an instance of the subclass comes into being; the translator
+                # runs it on first use of an instance attribute (obj=None: attributes are not inherited from a parent array)
+                fin = self.pkg.lookup(v.cls, "__array_finalize__")
+                if fin is not None and fin[0] == "method":
+                    v._finalized = True
+                    self.call_function(fin[1][0], [v, None])
+                    if a in v.__dict__.get("attrs", {}):
+                        return v.__dict__["attrs"][a]
             raise self.unsupported("ndarray attribute %s" % a, n)
         if isinstance(v, ClassRef) and v.name in self.pkg.classes and self.pkg.classes[v.name].enum_kind and \
                 a in self.enum_member_names(v.name):
@@ -2754,6 +2889,8 @@ class Interp:
             if f is FLOAT or f.name == "float":
                 if isinstance(args[0], str):
                     return self.parse_number(args[0], n, integer=False)
+                if isinstance(args[0], bool):
+                    return Poly.const(1 if args[0] else 0)
                 return self.scalar(args[0], n)
             raise self.unsupported("call of class %s" % f.name, n)
         if not isinstance(f, Opaque):
@@ -2810,12 +2947,30 @@ class Interp:
             return self.imported_call(f.payload[0], args, kw, n)
         if k == "callable":
             return f.payload[0](*args, **kw) if kw else f.payload[0](*args)
+        if k == "dtype" and f.payload and f.payload[0] in ("float64", "float_", "double") and len(args) == 1 and not kw:
+            # np.float64(x): the same number as a numpy scalar (exact for anything that already is a binary64)
+            v = args[0]
+            if isinstance(v, str):
+                return self.parse_number(v, n, integer=False)
+            if isinstance(v, (Poly, Wrapped)):
+                return v
+            if isinstance(v, Arr):
+                return v.copy()
         raise self.unsupported("call of %r" % (f,), n)
 
     def imported_call(self, origin, args, kw, n):
         leaf = origin.rsplit(".", 1)[-1]
         if leaf in self.overrides:
             return self.overrides[leaf](*args, **kw)
+        if "spsolve" in self.overrides and origin.split(".")[0] in ("scipy", "numpy") and "linalg" in origin:
+            # the family of *exact* linear solves: whichever is used, it is "the solve" of the harness
+            solver = self.overrides["spsolve"]
+            if leaf == "solve" and len(args) >= 2:
+                return solver(args[0], args[1])
+            if leaf == "factorized" and len(args) == 1:
+                return Opaque("callable", lambda rhs, H_=args[0]: solver(H_, rhs))
+            if leaf == "splu" and len(args) >= 1:
+                return Opaque("lu", args[0])
         if leaf != "closing":
             args = [a.drain() if isinstance(a, LazyIter) else a for a in args]
         if origin.startswith("logging") and leaf == "getLogger":
@@ -2950,6 +3105,16 @@ class Interp:
         if leaf in ("coo_matrix", "csr_matrix", "csc_matrix") and args and isinstance(args[0], tuple) and len(args[0]) == 2 and \
                 isinstance(args[0][1], (tuple, list)) and len(args[0][1]) == 2:
             data_, (rows_, cols_) = args[0]
+            if isinstance(data_, MaskedArr) or isinstance(rows_, MaskedArr) or isinstance(cols_, MaskedArr):
+                trio = (data_, rows_, cols_)
+                if not all(isinstance(x, MaskedArr) for x in trio) or not (rows_.mask is data_.mask and cols_.mask is data_.mask) or \
+                        data_.mask.source is not data_.base:
+                    raise self.unsupported("sparse matrix from triplets selected by a value-dependent mask", n)
+                # the triplets dropped by `values != 0` are exact zeros: the matrix is the one built from all entries that may be non-zero
+                keep = [f_ is not False for f_ in data_.mask.flat]
+                data_ = Arr([x for x, k_ in zip(data_.base.data, keep) if k_], 1)
+                rows_ = Arr([x for x, k_ in zip(rows_.base.data, keep) if k_], 1)
+                cols_ = Arr([x for x, k_ in zip(cols_.base.data, keep) if k_], 1)
             shp_ = kw.get("shape", args[1] if len(args) > 1 else None)
             if shp_ is None:
                 raise self.unsupported("sparse matrix from triplets without shape", n)
@@ -2973,6 +3138,62 @@ class Interp:
             if isinstance(shp, Arr):
                 return shp.copy()
             raise self.unsupported("sparse matrix constructor argument", n)
+        if origin.startswith("scipy.sparse") and leaf in ("diags", "spdiags") and len(args) == 1 and isinstance(args[0], (Arr, list, tuple)):
+            dv_ = self.to_arr(args[0], n)
+            if dv_.ndim == 1:
+                k_ = len(dv_.data)
+                a_ = Arr([[dv_.data[i] if i == j else Poly() for j in range(k_)] for i in range(k_)], 2)
+                a_.sparse = True
+                return a_
+        if origin.startswith("scipy.sparse") and leaf in ("eye", "identity") and args:
+            k_ = self.intval(args[0], n)
+            a_ = Arr([[Poly.const(1 if i == j else 0) for j in range(k_)] for i in range(k_)], 2)
+            a_.sparse = True
+            return a_
+        if origin in ("scipy.linalg.block_diag", "scipy.sparse.block_diag") and args:
+            blocks = list(self.iterate(args[0], n)) if origin.startswith("scipy.sparse") else list(args)
+            mats = []
+            for b_ in blocks:
+                if isinstance(b_, (Poly, Wrapped)):
+                    mats.append(Arr([[self.scalar(b_, n)]], 2))
+                else:
+                    a_ = self.to_arr(b_, n)
+                    mats.append(a_ if a_.ndim == 2 else Arr([list(a_.data)], 2))
+            R_, C_ = sum(m_.shape[0] for m_ in mats), sum(m_.shape[1] for m_ in mats)
+            out_ = [[Poly() for _ in range(C_)] for _ in range(R_)]
+            r0 = c0 = 0
+            for m_ in mats:
+                for i in range(m_.shape[0]):
+                    for j in range(m_.shape[1]):
+                        out_[r0 + i][c0 + j] = m_.data[i][j]
+                r0 += m_.shape[0]
+                c0 += m_.shape[1]
+            res_ = Arr(out_, 2)
+            if origin.startswith("scipy.sparse"):
+                res_.sparse = True
+            return res_
+        if origin.startswith("cmath."):
+            z = args[0] if args else None
+            if leaf == "phase" and isinstance(z, (Cx, Poly)):
+                z = z if isinstance(z, Cx) else Cx(z, Poly())
+                return self.atan2(z.im, z.re, n)
+            if leaf == "exp" and isinstance(z, Cx) and z.re.is_zero():
+                c_, s_ = self.cos_sin(z.im, n)
+                return Cx(c_, s_)
+            if leaf == "rect" and len(args) == 2:
+                c_, s_ = self.cos_sin(args[1], n)
+                r_ = self.scalar(args[0], n)
+                return Cx(r_ * c_, r_ * s_)
+            raise self.unsupported("cmath.%s" % leaf, n)
+        if origin in ("types.SimpleNamespace", "argparse.Namespace") and not args:
+            ns = Obj("<namespace>")
+            ns.fields.update(kw)
+            return ns
+        if origin == "operator.index" and len(args) == 1:
+            v = args[0]
+            if isinstance(v, Poly) and (v.const_value() is None or int(v.const_value()) == v.const_value()):
+                return v
+            raise PathRaise("TypeError(object cannot be interpreted as an integer)", self.where(n))
         if leaf == "deepcopy" or leaf == "copy":
             v = args[0]
             if isinstance(v, Pose):
@@ -3028,7 +3249,10 @@ class Interp:
         if name == "copy":
             if isinstance(v, Pose):
                 return Pose(v.cls, list(v.data))
-            return v.copy()
+            c_ = v.copy()
+            if getattr(v, "foreign_dtype", False):
+                c_.foreign_dtype = True        # a copy has the dtype of the original
+            return c_
         if name == "dot":
             return self.dot(v, args[0], n)
         if name == "transpose":
@@ -3516,6 +3740,8 @@ class Interp:
         if name == "float":
             if isinstance(args[0], str):
                 return self.parse_number(args[0], n, integer=False)
+            if isinstance(args[0], bool):
+                return Poly.const(1 if args[0] else 0)
             return self.scalar(args[0], n)
         if name in ("getattr", "hasattr"):
             obj, attr = args[0], args[1]
@@ -3621,6 +3847,16 @@ class Interp:
             return out
         if name == "id":
             return Poly.var("pyid#%d" % id(args[0]))
+        if name == "complex":
+            if len(args) == 1 and isinstance(args[0], Cx):
+                return args[0]
+            re_ = self.scalar(args[0], n) if args else Poly()
+            im_ = self.scalar(args[1], n) if len(args) > 1 else Poly()
+            return Cx(re_, im_)
+        if name == "abs" and args and isinstance(args[0], Cx):
+            return self.np_sqrt(args[0].re * args[0].re + args[0].im * args[0].im, n)
+        if name == "object" and not args:
+            return Obj("object")              # a sentinel: compared by identity only
         if name == "hash":
             # equal keys have equal hashes; structurally different keys are given different hashes (a collision would only cost
             # an extra __eq__ call in a real dict, it cannot change which keys are equal)
@@ -3909,6 +4145,11 @@ class Interp:
                 ang = Poly.var(name).scale(k)
                 c, s = self.cos_sin(ang, node)
                 if c == x and s == y:
+                    # arctan2 returns the principal value: in marker mode it counts as a wrap of the angle
+                    if self.mark_wraps == "numbered":
+                        nm_ = "WRAP%d" % len(self.wraps)
+                        self.wraps.append((nm_, ang))
+                        return ang + Poly.var(nm_)
                     return ang
         if y.is_zero() and x == Poly.const(1):
             return Poly()
@@ -3979,6 +4220,11 @@ class Interp:
         if name in ("array", "asarray", "asanyarray", "ascontiguousarray", "copy"):
             self.check_dtype(kw, n, args[0])
             v = args[0]
+            if getattr(v, "foreign_dtype", False) and "dtype" not in kw and name in ("array", "copy"):
+                c_ = self.to_arr(v, n)
+                c_ = c_.copy() if c_ is v else c_
+                c_.foreign_dtype = True
+                return c_
             if isinstance(v, Pose) and name == "asanyarray":
                 return v
             if name in ("asarray", "asanyarray", "ascontiguousarray") and isinstance(v, Arr) and "dtype" not in kw or \
@@ -3988,6 +4234,16 @@ class Interp:
                     return Arr(v.data, 1) if name == "asarray" else v
                 return v
             return self.to_arr(v, n)
+        if name == "exp" and len(args) == 1 and isinstance(args[0], Cx) and args[0].re.is_zero():
+            c_, s_ = self.cos_sin(args[0].im, n)
+            return Cx(c_, s_)
+        if name in ("real", "imag") and len(args) == 1 and isinstance(args[0], (Cx, Poly)):
+            z_ = args[0] if isinstance(args[0], Cx) else Cx(args[0], Poly())
+            return z_.re if name == "real" else z_.im
+        if name in ("conj", "conjugate") and len(args) == 1 and isinstance(args[0], Cx):
+            return Cx(args[0].re, -args[0].im)
+        if name == "angle" and len(args) == 1 and isinstance(args[0], Cx):
+            return self.atan2(args[0].im, args[0].re, n)
         if name in ("cos", "sin"):
             if isinstance(args[0], Wrapped):
                 args = [self.unwrap(args[0], n)]
@@ -4030,9 +4286,25 @@ class Interp:
             if len(dims) == 2:
                 return Arr([[fill for _ in range(dims[1])] for _ in range(dims[0])], 2)
             raise self.unsupported("np.%s with %d dims" % (name, len(dims)), n)
-        if name in ("zeros_like", "ones_like"):
+        if name in ("zeros_like", "ones_like", "empty_like", "full_like"):
+            proto = args[0]
+            if "dtype" in kw:
+                self.check_dtype(kw, n)
+            elif getattr(proto, "foreign_dtype", False):
+                raise LossyOperation("np.%s of a caller-supplied array inherits that array's dtype (an integer or float32 array truncates / "
+                                     "rounds what is stored into it)" % name, self.where(n))
+            if name == "empty_like":
+                self.uninit = getattr(self, "uninit", 0)
+
+                def fresh(_):
+                    self.uninit += 1
+                    return Poly.var("uninitialised#%d" % self.uninit)
+                return self.to_arr(proto, n).map(fresh)
+            if name == "full_like":
+                fv = self.scalar(args[1] if len(args) > 1 else kw.get("fill_value"), n)
+                return self.to_arr(proto, n).map(lambda _: fv)
             fill = Poly.const(0 if name == "zeros_like" else 1)
-            return self.to_arr(args[0], n).map(lambda _: fill)
+            return self.to_arr(proto, n).map(lambda _: fill)
         if name == "add":
             return self.arith(ast.Add, self.maybe_arr(args[0], n), self.maybe_arr(args[1], n), n)
         if name == "subtract":
@@ -4063,6 +4335,8 @@ class Interp:
             if sq.const_value() is not None:
                 return self.np_sqrt(sq, n)
             return poly.atom("norm", sq)
+        if name == "linalg.solve" and "spsolve" in self.overrides and len(args) == 2:
+            return self.overrides["spsolve"](args[0], args[1])
         if name == "linalg.inv":
             raise self.unsupported("np.linalg.inv", n)
         if name == "sqrt":
@@ -4209,6 +4483,36 @@ class Interp:
                     w = c.shape[1]
                     return Arr([flat[i * w:(i + 1) * w] for i in range(c.shape[0])], 2)
                 return Arr(flat, 1)
+        if name in ("shares_memory", "may_share_memory") and len(args) == 2:
+            def root(a_):
+                seen_ = 0
+                while isinstance(a_, Arr) and getattr(a_, "view_of", None) is not None and seen_ < 16:
+                    a_, seen_ = a_.view_of[0], seen_ + 1
+                return a_
+            a_, b_ = root(args[0]), root(args[1])
+            if not isinstance(a_, Arr) or not isinstance(b_, Arr):
+                return False
+            return a_ is b_ or a_.data is b_.data
+        if name == "broadcast_shapes":
+            shapes = [tuple(self.intval(x, n) for x in (sh if isinstance(sh, (tuple, list)) else [sh])) for sh in args]
+            nd = max((len(sh) for sh in shapes), default=0)
+            out_ = []
+            for k_ in range(1, nd + 1):
+                dims_ = {sh[-k_] for sh in shapes if len(sh) >= k_} - {1}
+                if len(dims_) > 1:
+                    raise PathRaise("ValueError(shape mismatch: objects cannot be broadcast to a single shape)", self.where(n))
+                out_.append(dims_.pop() if dims_ else 1)
+            return tuple(Poly.const(x) for x in reversed(out_))
+        if name == "tri":
+            rows_ = self.intval(args[0], n)
+            cols_ = args[1] if len(args) > 1 else kw.get("M")
+            cols_ = rows_ if cols_ is None else self.intval(cols_, n)
+            k_ = self.intval(args[2], n) if len(args) > 2 else (self.intval(kw["k"], n) if "k" in kw else 0)
+            dt_ = args[3] if len(args) > 3 else kw.get("dtype")
+            flags = [[j <= i + k_ for j in range(cols_)] for i in range(rows_)]
+            if (isinstance(dt_, Opaque) and dt_.payload and dt_.payload[0] in ("bool", "bool_")) or (isinstance(dt_, ClassRef) and dt_.name == "bool"):
+                return BoolArr([x for r_ in flags for x in r_], (rows_, cols_))
+            return Arr([[Poly.const(1 if x else 0) for x in r_] for r_ in flags], 2)
         if name == "count_nonzero":
             v = self.to_arr(args[0], n)
             return Poly.const(sum(1 for x in v.flat() if self.truth(x, n)))
@@ -4294,12 +4598,25 @@ class Interp:
             # whether a computed number is finite is not a property of real arithmetic (a singular solve, an overflow): both
             # outcomes are explored, one decision per call (all elements alike)
             v_ = args[0]
-            flat_ = v_.flat() if isinstance(v_, Arr) else [self.scalar(v_, n)]
-            if all(isinstance(x, Poly) and x.const_value() is not None for x in flat_):
+            if isinstance(v_, Quot):
+                flat_ = [v_]
+            else:
+                flat_ = v_.flat() if isinstance(v_, Arr) else [self.scalar(v_, n)]
+            # inputs of the property's domain are finite numbers, and so is every polynomial / cos / sin / sqrt of them; what may be
+            # inf or nan is a quotient and anything computed from an *uninterpreted* result (the step of a possibly singular solve)
+            def risky(x):
+                if not isinstance(x, Poly):
+                    return True
+                return any(v.startswith(tuple(self.maybe_nonfinite)) for v in base_variables(x)) if self.maybe_nonfinite else False
+            if not any(risky(x) for x in flat_):
                 fin = True
             else:
-                self.finite_counter = getattr(self, "finite_counter", 0) + 1
-                fin = self.decide_sign(Poly.var("all_finite#%d" % self.finite_counter), {1}, "the computed values are finite")
+                key_ = tuple(sorted(str(x.key()) if isinstance(x, Poly) else repr(id(x)) for x in flat_))
+                memo_ = self.__dict__.setdefault("_finite_memo", {})
+                if key_ not in memo_:
+                    self.finite_counter = getattr(self, "finite_counter", 0) + 1
+                    memo_[key_] = self.decide_sign(Poly.var("all_finite#%d" % self.finite_counter), {1}, "the computed values are finite")
+                fin = memo_[key_]
             res_ = fin if name == "isfinite" else (not fin)
             if isinstance(v_, Arr):
                 return BoolArr([res_] * len(flat_), v_.shape)
@@ -4541,7 +4858,7 @@ def _dotp(r, c):
 
 OPNAME = {ast.Lt: "<", ast.LtE: "<=", ast.Gt: ">", ast.GtE: ">=", ast.Eq: "==", ast.NotEq: "!="}
 ARR_METHODS = {"diagonal", "setdiag", "trace", "eliminate_zeros", "sum_duplicates", "setflags", "tobytes", "tostring", "__array__", "squeeze", "conj", "conjugate", "all", "item", "max", "min", "fill", "tocsr", "tocsc", "tolil", "todense", "toarray", "tocoo", "any", "view", "copy", "dot", "transpose", "flatten", "ravel", "tolist", "astype", "reshape", "sum", "round"}
-BUILTIN_NAMES = {"hash", "format", "divmod", "slice", "map", "filter", "sorted", "getattr", "hasattr", "setattr", "next", "iter", "id", "abs", "bool", "open", "str", "repr", "set", "frozenset", "dict", "isinstance", "issubclass", "type", "len", "range", "zip", "enumerate", "reversed", "list", "tuple",
+BUILTIN_NAMES = {"complex", "object", "hash", "format", "divmod", "slice", "map", "filter", "sorted", "getattr", "hasattr", "setattr", "next", "iter", "id", "abs", "bool", "open", "str", "repr", "set", "frozenset", "dict", "isinstance", "issubclass", "type", "len", "range", "zip", "enumerate", "reversed", "list", "tuple",
                  "all", "any", "sum", "max", "min", "super", "print", "round", "int", "abs", "NotImplementedError"}
 
 
@@ -4585,6 +4902,14 @@ POSE_LEN = {"PoseR2": 2, "PoseR3": 3, "PoseSE2": 3, "PoseSE3": 7}
 def pose_len(pkg, cls):
     """Ambient length of a pose class, derived from its own __new__ when possible (falls back to the table)."""
     return POSE_LEN[cls]
+
+
+def param_const(it, value):
+    """An integer argument of the scenario (max_iter, ...): a constant here, but a *parameter* of the analysed code -- comparing a
+    loop counter with it is not a hard-wired threshold."""
+    p_ = Poly(dict(Poly.const(value).t))
+    it.taint[id(p_)] = ("param", p_)
+    return p_
 
 
 def base_variables(p):
